@@ -1,6 +1,7 @@
 """C06 - reported sums and derived outputs always describe the returned bins."""
 import random
 from runtime import harness as H
+from props import _ded as D
 from runtime import t3_misc as T
 from props._algos import partition_calls, pack_calls
 
@@ -20,5 +21,7 @@ def t3(rep, tier, seed):
 
 def run(rep, tier, seed):
     rep.level = "exploration"
-    rep.assume("A1", "A4", "A6", "A7", "A8")
+    rep.assume("A1", "A2", "A4", "A5", "A6", "A7", "A8")
+    D.run_contracts(rep, "C06", D.PART_HEUR + D.FIT + D.COVER, tier, with_lemmas=True)
     t3(rep, tier, seed)
+    D.link_falsifier(rep)
